@@ -52,3 +52,38 @@ Print Assumptions C01_tvd.
 
 Example C01_nonvacuous : mesh_ok QcOps ex_C2 /\ stencil_ok QcOps ex_C2 /\ mesh_ok QcOps ex_S3.
 Proof. split; [exact ex_C2_mesh_ok|split; [exact ex_C2_stencil_ok|exact ex_S3_mesh_ok]]. Qed.
+
+(* ---- solver steps ---- *)
+From PFV Require Import Boundary Solver SolverThy BalanceThy.
+(* open-boundary balance of one implicit step (any scaling of the three flux-form terms, any alpha, dt) *)
+Theorem C01_implicit_step_balance : forall (F : FieldOps) (L : FieldLaws F) (m : Mesh F) V T,
+  (forall a, In a (active_axes F m) -> measure_ok F m V T a) -> stencil_ok F m ->
+  forall (bc : BCs F) alpha (dt : F) old x (sD sC sU : F) D u1 u2 uup,
+  dt <> k0 F ->
+  is_solution F m bc (TTrans F alpha dt old :: TDiff F sD D :: TCen F sC u1 :: TUpw F sU u2 uup :: nil) x ->
+  kadd F (kadd F (kadd F (sum_cells F m (fun c => kmul F (V c) (kdiv F (kmul F (alpha c) (ksub F (x c) (old c))) dt)))
+                         (kmul F sD (boundary_flux F m T (fmul F D (gradient F m x)))))
+                 (kmul F sC (boundary_flux F m T (fmul F u1 (linmean F m x)))))
+         (kmul F sU (boundary_flux F m T (upwflux F m u2 uup x))) = k0 F.
+Proof. exact implicit_step_balance. Qed.
+Print Assumptions C01_implicit_step_balance.
+
+Theorem C01_implicit_step_closed : forall (F : FieldOps) (L : FieldLaws F) (m : Mesh F) V T,
+  (forall a, In a (active_axes F m) -> measure_ok F m V T a) -> stencil_ok F m ->
+  forall (bc : BCs F) alpha (dt : F) old x (sD sC sU : F) D u1 u2 uup,
+  dt <> k0 F ->
+  is_solution F m bc (TTrans F alpha dt old :: TDiff F sD D :: TCen F sC u1 :: TUpw F sU u2 uup :: nil) x ->
+  boundary_flux F m T (fmul F D (gradient F m x)) = k0 F ->
+  boundary_flux F m T (fmul F u1 (linmean F m x)) = k0 F ->
+  boundary_flux F m T (upwflux F m u2 uup x) = k0 F ->
+  sum_cells F m (fun c => kmul F (V c) (kmul F (alpha c) (x c))) = sum_cells F m (fun c => kmul F (V c) (kmul F (alpha c) (old c))).
+Proof. exact implicit_step_closed. Qed.
+Print Assumptions C01_implicit_step_closed.
+
+Theorem C01_explicit_step_balance : forall (F : FieldOps) (L : FieldLaws F) (m : Mesh F) V T,
+  (forall a, In a (active_axes F m) -> measure_ok F m V T a) ->
+  forall (bc : BCs F) old (dt : F) (Fl : fvar F),
+  sum_cells F m (fun c => kmul F (V c) (explicit_step F m bc old dt (fun c => kopp F (divergence F m Fl c)) c))
+  = ksub F (sum_cells F m (fun c => kmul F (V c) (old c))) (kmul F dt (boundary_flux F m T Fl)).
+Proof. exact explicit_step_balance. Qed.
+Print Assumptions C01_explicit_step_balance.
